@@ -51,6 +51,30 @@ cmp("parse_emc_digi_id.theta", r["theta"], t, [p, t, f]); cmp("parse_emc_digi_id
 ra = p3.parse_emc_digi_id(ak.Array(ids)); cmp("parse_emc_digi_id(ak).gid", ak.to_numpy(ra["gid"]), ge, [p, t, f])
 r = p3.parse_emc_gid(ge, with_pos=False)
 cmp("parse_emc_gid.gid", r["gid"], ge, [ge]); cmp("parse_emc_gid.part", r["part"], p, [ge]); cmp("parse_emc_gid.theta", r["theta"], t, [ge]); cmp("parse_emc_gid.phi", r["phi"], f, [ge])
+# one identifier at a time, as a plain Python int and as a NumPy scalar (a separate code path from arrays): every wire / crystal
+import time as _t
+_t0 = _t.time()
+ids_m = d.get_mdc_digi_id(w, l, np.zeros(len(l), dtype=np.int64)); ids_e = d.get_emc_digi_id(p, t, f)
+for label, conv in (("int", int), ("np.uint32", np.uint32)):
+    step = 1 if label == "int" else 7
+    gm = {k: [] for k in ("gid", "layer", "wire")}; idx = range(0, len(ids_m), step)
+    for i in idx:
+        r1 = p3.parse_mdc_digi_id(conv(ids_m[i]))
+        for k in gm: gm[k].append(int(r1[k]))
+    sel = np.array(list(idx))
+    cmp(f"parse_mdc_digi_id({label} scalar).gid", gm["gid"], g[sel], [l[sel], w[sel]]); cmp(f"parse_mdc_digi_id({label} scalar).layer", gm["layer"], l[sel], [l[sel], w[sel]])
+    cmp(f"parse_mdc_digi_id({label} scalar).wire", gm["wire"], w[sel], [l[sel], w[sel]])
+    ge_ = {k: [] for k in ("gid", "part", "theta", "phi")}; idx = range(0, len(ids_e), step)
+    for i in idx:
+        r1 = p3.parse_emc_digi_id(conv(ids_e[i]))
+        for k in ge_: ge_[k].append(int(r1[k]))
+    sel = np.array(list(idx))
+    cmp(f"parse_emc_digi_id({label} scalar).gid", ge_["gid"], ge[sel], [p[sel], t[sel], f[sel]])
+    for k, col in (("part", p), ("theta", t), ("phi", f)): cmp(f"parse_emc_digi_id({label} scalar).{k}", ge_[k], col[sel], [p[sel], t[sel], f[sel]])
+    # the gid accessors themselves with scalars
+    cmp(f"get_mdc_gid({label} scalars)", [int(p3.get_mdc_gid(conv(a), conv(b))) for a, b in zip(l[::step], w[::step])], g[::step], [l[::step], w[::step]])
+    cmp(f"get_emc_gid({label} scalars)", [int(p3.get_emc_gid(conv(a), conv(b), conv(c))) for a, b, c in zip(p[::step], t[::step], f[::step])], ge[::step], [p[::step], t[::step], f[::step]])
+scalar_s = round(_t.time() - _t0, 1)
 # the documented parameter names: a call that names its inputs may be refused (numba ufuncs take no keyword inputs), but whenever it
 # returns, it is the value for the NAMED wire / crystal, whatever the order in which the names are written
 import inspect, itertools
@@ -76,4 +100,4 @@ out = []
 for c in inp["sample"]:
     fn = getattr(p3, c["f"])
     out.append(int(fn(*[np.int64(a) for a in c["args"]])))
-print(json.dumps({"evaluations": n_eval, "mismatches": mis, "sample": out, "keyword_calls_refused": refused}))
+print(json.dumps({"evaluations": n_eval, "mismatches": mis, "sample": out, "keyword_calls_refused": refused, "scalar_loop_s": scalar_s}))
